@@ -62,6 +62,11 @@ struct State {
 };
 State* S = nullptr;
 
+// Objects of static storage duration, constructed before the library is used for the first time (the CookBook's global
+// mock idiom): the expectation is placed at the first reset() and both die during static destruction, after main().
+Mk g_static_mock;
+ExpPtr g_static_exp;
+
 // one call of mock function `func` on a mock object of either class
 template <class M>
 long invoke(M& m, int func, int a0, int a1) {
@@ -215,6 +220,7 @@ void cold_start() {
 }
 
 void reset() {
+  if (!g_static_exp) g_static_exp = NAMED_ALLOW_CALL(g_static_mock, h(trompeloeil::_)).RETURN(0);
   shutdown_quiet();
   S = new State;
   g_log.clear();
